@@ -1,7 +1,7 @@
 import ast
 from typing import Tuple, List
 
-from rope.base import codeanalyze, pyobjects, worder
+from rope.base import codeanalyze, exceptions, pyobjects, worder
 from rope.base.builtins import Lambda
 from rope.base.codeanalyze import SourceLinesAdapter
 
@@ -184,9 +184,17 @@ class ArgumentMapping:
         args = []
         keywords = []
         for index in range(len(definition_info.args_with_defaults)):
-            name = definition_info.args_with_defaults[index][0]
+            name, default = definition_info.args_with_defaults[index]
             if name in self.param_dict:
                 args.append(self.param_dict[name])
+            elif self.args_arg:
+                # the positional arguments that go to `*args` come after it
+                if default is None:
+                    raise exceptions.RefactoringError(
+                        "Cannot leave out <%s> in a call that passes more"
+                        " positional arguments." % name
+                    )
+                args.append(default)
             else:
                 for i in range(index, len(definition_info.args_with_defaults)):
                     name = definition_info.args_with_defaults[i][0]
